@@ -347,7 +347,8 @@ def c03(c):
 C04_THEOREMS = ["Ctl.hIter_reject_of_not_le", "Ctl.rk23Iter_reject_of_not_le", "Ctl.rk23_reject_factor_nan", "Ctl.hIter_cases",
                 "Ctl.hSolve_protocol", "Ctl.dopri5_guard_progress", "Ctl.dop853_guard_progress", "Ctl.rk23_guard_progress",
                 "Ctl.hGuard_none_progress", "Ctl.dopri5Params_underflow", "Ctl.dop853Params_underflow", "c04_radau_nan_estimate",
-                "Ctl.c04_finiteGuard_accept", "Ctl.c04_accept_finite_dopri5", "Ctl.c04_accept_finite_dop853", "Ctl.c04_accept_finite_rk23"]
+                "Ctl.c04_finiteGuard_accept", "Ctl.c04_accept_finite_dopri5", "Ctl.c04_accept_finite_dop853", "Ctl.c04_accept_finite_rk23",
+                "Ctl.hSolve_terminates", "Ctl.hLoop_terminates", "Ctl.rk4Loop_terminates"]
 
 
 def c04(c):
@@ -462,7 +463,8 @@ def c19(c):
 C16_THEOREMS = ["LU.c16_shape_errors", "LU.c16_shape_errors_complex", "LU.c16_n1", "LU.c16_n1_complex",
                 "LU.c16_n2_exact_partial", "LU.c16_n2_singular_iff", "LU.lu2_noswap", "LU.lu2_swap", "LU.lu2_singular",
                 "LUF.c16_general_exact", "LUF.c16_general_exact_n1", "LUF.c16_zero_first_column",
-                "LUF.decomp_solve_spec", "LUF.decompGo_spec", "LUF.step_sys_iff", "LUF.backGo_spec"]
+                "LUF.decomp_solve_spec", "LUF.decompGo_spec", "LUF.step_sys_iff", "LUF.backGo_spec",
+                "LUF.c16_accept_iff_nonsingular", "LUF.c16_refused_singular", "LUF.decomp_singular_spec", "LUF.decomp_accept_injective", "LUF.decomp_total"]
 
 
 def c16(c):
